@@ -132,7 +132,9 @@ def ref_set_parent(s, n, v, fam, nonnode):
     par = dict(s["par"])
     ch = {k: list(x) for k, x in s["ch"].items()}
     if v in nonnode:
-        return ("TreeError" if fam == "NodeMixin" else "PRECONDITION"), s, []
+        # NodeMixin checks the type; LightNodeMixin has no check of its own, the request fails on the first use of the object as a
+        # node ("INVALID": some exception, C03: nothing changed)
+        return ("TreeError" if fam == "NodeMixin" else "INVALID"), s, []
     if v is not None and (v == n or n in anc(par, v)):
         return "LoopError", s, []
     q = par[n]
@@ -168,7 +170,7 @@ def ref_set_children(s, n, xs, fam, nonnode):
     if any(x in nonnode for x in xs):
         if fam == "NodeMixin":
             return "TreeError", s, []
-        return "PRECONDITION", s, []
+        return "INVALID", s, []
     if len(set(xs)) != len(xs):
         return "TreeError", s, []
     par0 = s["par"]
@@ -245,14 +247,17 @@ def run_case(case, Ctl, fams):
     if isinstance(exc, AssertionError):
         viol.setdefault("C01", []).append("internal assertion fired: %r" % (exc,))
     # C02 ------------------------------------------------------------------------------------
-    if not veto:
+    if not veto and exp_exc == "INVALID":
+        if exc is None:
+            viol["C02"] = ["an argument that is not a tree node was accepted"]
+    elif not veto:
         if exp_exc != excname:
             viol["C02"] = ["expected %s, got %s (%r)" % (exp_exc, excname, exc)]
         elif exc is None and after != exp_state:
             viol["C02"] = ["post-state differs from the specified effect", {"expected": exp_state, "got": after}]
     # C03 ------------------------------------------------------------------------------------
     if exc is not None:
-        refused = excname in ("TreeError", "LoopError", "TypeError") and not veto
+        refused = (excname in ("TreeError", "LoopError", "TypeError") or exp_exc == "INVALID") and not veto
         # the exception that propagates is the one raised last
         prehook = veto and raised and log[raised[-1]][0].startswith("_pre_")
         if (refused or prehook) and after != before:
@@ -279,7 +284,7 @@ def run_case(case, Ctl, fams):
         if h == "_post_attach" and not (snap["par"][r] == a and snap["ch"][a] and snap["ch"][a][-1] == r):
             viol.setdefault("C16", []).append("_post_attach(%s) did not see %s as last child of %s" % (r, r, a))
     return {"valid": True, "exception": excname, "veto": veto, "before": before, "after": after, "log": log,
-            "raised_at": raised, "diverged": diverged, "violations": viol}
+            "raised_at": raised, "diverged": diverged, "invalid_arg": exp_exc == "INVALID", "violations": viol}
 
 
 # ------------------------------------------------------------------ known-finding case predicates (concrete)
@@ -289,7 +294,7 @@ def kf_case(case, res):
     before = res["before"]
     if res.get("diverged"):
         return "KF4"
-    if not res["veto"] and res["exception"] != "LoopError":
+    if not res["veto"] and res["exception"] != "LoopError" and not res.get("invalid_arg"):
         return None
     if call[0] == "set_parent":
         if res["veto"] and log[raised[-1]][0] == "_pre_attach" and before["par"][call[1]] is not None:
